@@ -116,6 +116,20 @@ def _main(args, pid, tier, hmod, seed, t_start, workdir):
             print(c.id, c.budget, c.engine)
         return 0
 
+    # -------- conformance pre-flight of the library models against the real libraries
+    conf = {"ok": None}
+    if any(c.models for c in conds):
+        conf_file = os.path.join(workdir, "conformance.json")
+        try:
+            subprocess.run([PY, "-m", "models.conformance", conf_file], cwd=HERE, env=env_for_child(), stdout=subprocess.PIPE,
+                           stderr=subprocess.STDOUT, timeout=300)
+            conf = json.load(open(conf_file))
+        except Exception as e:  # noqa
+            conf = {"ok": False, "models": {"error": repr(e)}}
+        if not conf.get("ok"):
+            bad = {k: v for k, v in conf.get("models", {}).items() if not isinstance(v, dict) or v.get("disagreements")}
+            print(f"MODEL-CONFORMANCE-ERROR property={pid}: a library model disagrees with the real library: {json.dumps(bad)[:600]}")
+
     findings = load_findings(pid)
     known = [f for f in findings if f["status"] == "known"]
     active_known = {f["id"] for f in known}
@@ -239,10 +253,12 @@ def _main(args, pid, tier, hmod, seed, t_start, workdir):
         rc = rc or 3
     if any(r["status"] == "ERROR" for r in results.values()) and os.environ.get("VERIF_STRICT") == "1":
         rc = rc or 3
+    if conf.get("ok") is False and os.environ.get("VERIF_STRICT") == "1":
+        rc = rc or 3
 
     if not args.no_evidence and not args.only:
         from vlib import evidence
-        evidence.write(pid, tier, seed, harness, conds, results, violations, harness_errors, kf_lines, validated, wall)
+        evidence.write(pid, tier, seed, harness, conds, results, violations, harness_errors, kf_lines, validated, wall, conf)
     return rc
 
 
